@@ -7,7 +7,8 @@
 From Coq Require Import List Bool NArith PeanoNat.
 Import ListNotations.
 Require Import PV.Binder.Kind PV.Gen.Kinds PV.Binder.Sig PV.Binder.SigAssign PV.Binder.PyBind.
-Require Import PV.Proofs.SigAssignRefute PV.Proofs.SigAssignSmall PV.Proofs.SigAssignLoop.
+Require Import PV.Proofs.SigAssignRefute PV.Proofs.SigAssignSmall PV.Proofs.SigAssignLoop PV.Proofs.SigAssignSound PV.Proofs.BinderGen.
+Require Import PV.Gen.BinderShape.
 Open Scope N_scope.
 
 (* The full statement: an accepted pair is behaviourally sound on every call. *)
@@ -43,16 +44,39 @@ Theorem C07_full_statement_refuted : ~ C07_sig_assign_binds_full_statement.
 Proof. exact full_statement_refuted. Qed.
 Print Assumptions C07_full_statement_refuted.
 
-(* The partial statement (guard: no double fill possible) ... *)
-Definition C07_sig_assign_binds_partial_statement : Prop := forall e a npos kws,
+(* The partial statement (guard: no double fill possible), for signatures and calls of
+   ANY size: an accepted pair outside the guard is behaviourally sound — every call the
+   expected signature binds is bound by the accepted callable. *)
+Theorem C07_sig_assign_binds_partial : forall e a npos kws,
   valid_sig e = true -> valid_sig a = true -> names_nodup kws = true ->
   kinds_ok e a = true -> double_fill e a = false ->
   py_bind e npos kws = true -> py_bind a npos kws = true.
+Proof. exact sig_assign_binds_partial. Qed.
+Print Assumptions C07_sig_assign_binds_partial.
 
-(* ... is decided by computation inside Coq on exhaustive small domains: all 229 valid
-   signatures with <= 2 parameters over three names on both sides (6637 accepted pairs
-   outside the guard), and <= 2 against <= 3 parameters (865 signatures) in both
-   directions, against every call with <= 3 positionals and <= 3 of 4 keywords. *)
+(* the hypotheses are met non-trivially: (a, b=0, *, c) <- (a, b=0, d=0, *xs, c, **k),
+   with the bound call f(1, c=2) *)
+Example C07_partial_guard_inhabited :
+  let e := [mkParam 1 POK false; mkParam 2 POK true; mkParam 3 KO false] in
+  let a := [mkParam 1 POK false; mkParam 2 POK true; mkParam 4 POK true; mkParam 5 VP false;
+            mkParam 3 KO false; mkParam 6 VK false] in
+  valid_sig e = true /\ valid_sig a = true /\ kinds_ok e a = true /\ double_fill e a = false /\
+  py_bind e 1 [3] = true.
+Proof. exact partial_guard_inhabited. Qed.
+Print Assumptions C07_partial_guard_inhabited.
+
+(* the declarative reading of CPython's binder used by the proof (valid signatures):
+   a call binds iff every parameter's slot condition holds, the positionals fit, and
+   every keyword has a target *)
+Theorem C07_py_bind_char : forall s npos kws, valid_sig s = true -> names_nodup kws = true ->
+  (py_bind s npos kws = true <-> binds_char s npos kws).
+Proof. exact py_bind_char. Qed.
+Print Assumptions C07_py_bind_char.
+
+(* Kept from phase 1: the same statement decided by computation on exhaustive small
+   domains (all 229 valid signatures with <= 2 parameters over three names on both sides,
+   and <= 2 against <= 3 parameters (865 signatures) in both directions, against every call
+   with <= 3 positionals and <= 3 of 4 keywords) — an independent check of model + guard. *)
 Theorem C07_sound_outside_guard_small_2x2 : small_domain_sound = true.
 Proof. exact small_domain_sound_true. Qed.
 Print Assumptions C07_sound_outside_guard_small_2x2.
@@ -116,3 +140,32 @@ Theorem C07_accept_required_posonly : forall e a,
   exists m, nth_error e j = Some m /\ pkind m = PO /\ pdefault m = false.
 Proof. exact accept_required_posonly. Qed.
 Print Assumptions C07_accept_required_posonly.
+
+(* Tie to the current source: the "takes extra (required) parameter" loop of
+   Signature.can_assign, as translated from signature.py on this run
+   (Gen/BinderShape.v, gen_extra_required_ok), is the one of the model. *)
+Theorem C07_sca_uses_generated_loop : forall e a,
+  sca e a = match sca_loop a 0 (mkC [] [] [] []) e with
+            | None => None
+            | Some st => if forallb (gen_extra_required_ok st) a then Some (rev (obl st)) else None
+            end.
+Proof. exact sca_uses_generated_loop. Qed.
+Print Assumptions C07_sca_uses_generated_loop.
+
+(* Typed half, connected to the Core value model: annotations = nominal classes of the
+   class table generated from the running implementation (Gen/ClassTable.v), acceptance =
+   the implementation's own TypedValue.can_assign on them (`tassign table`), membership =
+   Core's specification for nominal types (`sub_promo`: subclassing + numeric promotion).
+   If the typed signatures are accepted, then for every pair of annotations the comparison
+   looks at, every runtime class that is a member of MY parameter's annotation is a member
+   of THEIR parameter's annotation (parameter contravariance under membership). *)
+Require Import PV.Core.Cls PV.Gen.ClassTable PV.Proofs.C04Witness PV.Proofs.SigAssignTyped.
+Theorem C07_sig_assign_member_contravariant : forall ann_e ann_a le_ret e a,
+  nominal ann_e -> nominal ann_a ->
+  sig_can_assign (le_table ann_e ann_a) le_ret e a = true ->
+  le_ret = true /\
+  exists obs, sca e a = Some obs /\
+    forall t m, In (t, m) obs ->
+      forall c', In c' classes -> sub_promo table c' (ann_e m) = true -> sub_promo table c' (ann_a t) = true.
+Proof. exact sig_assign_member_contravariant. Qed.
+Print Assumptions C07_sig_assign_member_contravariant.
